@@ -26,24 +26,63 @@ def exceeds (maxID maxEvent : Nat) (s : Sizes) : Exceeds :=
 def checkIDX (colon sigil cp b : Bool) : Outcome :=
   if !colon then .other else if !sigil then .other else if cp then .tooLarge else if b then .tooLargePersistable else .ok
 
+def checkRoomIDFieldX (colon sigil cp b rValid : Bool) : Outcome :=
+  match checkIDX colon sigil cp b with
+  | .ok => if rValid then .ok else .other
+  | .tooLargePersistable => .tooLarge
+  | e => e
+
+def checkFieldsX (lenient exempt sColon sSigil : Bool) (x : Exceeds) : Outcome :=
+  if x.json then .tooLarge else if x.typeCP then .tooLarge else if x.skCP then .tooLarge
+  else if x.senderCP then .tooLarge
+  else if !exempt && !sColon then .other
+  else if !exempt && !sSigil then .other
+  else if x.typeB then soft lenient else if x.skB then soft lenient
+  else if x.senderB then .tooLargePersistable else .ok
+
+def roomX (rc : RoomCheck) (rColon rSigil rValid : Bool) (x : Exceeds) : Outcome :=
+  match rc with
+  | .checkID => checkRoomIDFieldX rColon rSigil x.roomCP x.roomB rValid
+  | .prefixOnly => if !rSigil then Outcome.other else if rValid then Outcome.ok else Outcome.other
+
 /-- `verdict` as a function of the exceeded limits only -/
 def verdictX (lenient exempt : Bool) (rc : RoomCheck) (sColon sSigil rColon rSigil rValid : Bool) (x : Exceeds) : Outcome :=
-  let room : Outcome := match rc with
-    | .checkID => (checkIDX rColon rSigil x.roomCP x.roomB).andThen (if rValid then Outcome.ok else Outcome.other)
-    | .prefixOnly => if !rSigil then Outcome.other else if rValid then Outcome.ok else Outcome.other
-  room.andThen
-    (if x.json then .tooLarge else if x.typeCP then .tooLarge else if x.skCP then .tooLarge
-     else if x.typeB then soft lenient else if x.skB then soft lenient
-     else if exempt then .ok else checkIDX sColon sSigil x.senderCP x.senderB)
+  (roomX rc rColon rSigil rValid x).andThen (checkFieldsX lenient exempt sColon sSigil x)
+
+/-- `verdictUntrusted`: `x` describes the event as received, `checkedJson` says whether the JSON that
+    CheckFields sees (the redacted one if the hash does not match) is over the limit -/
+def verdictUntrustedX (lenient exempt : Bool) (rc : RoomCheck) (sColon sSigil rColon rSigil rValid : Bool) (x : Exceeds)
+    (checkedJson : Bool) : Outcome :=
+  (roomX rc rColon rSigil rValid x).andThen
+    (if x.json then .tooLarge else checkFieldsX lenient exempt sColon sSigil { x with json := checkedJson })
+
+theorem checkFields_eq_X (p : Params) (s : Sizes) :
+    checkFields p s = checkFieldsX p.lenient p.senderExempt s.sender.hasColon s.sender.sigilOk (exceeds p.maxID p.maxEvent s) := by
+  obtain ⟨jl, tcp, tb, hsk, scp, sb, ⟨sc, ss, secp, seb⟩, ⟨rc, rs, rcp, rb⟩, rv⟩ := s
+  obtain ⟨mi, me, le, ex, rck⟩ := p
+  simp only [checkFields, checkFieldsX, exceeds, decide_eq_true_eq, Bool.and_eq_true]
+
+theorem room_eq_X (p : Params) (s : Sizes) :
+    roomCheckOutcome p s = roomX p.roomCheck s.room.hasColon s.room.sigilOk s.roomValid (exceeds p.maxID p.maxEvent s) := by
+  obtain ⟨jl, tcp, tb, hsk, scp, sb, ⟨sc, ss, secp, seb⟩, ⟨rc, rs, rcp, rb⟩, rv⟩ := s
+  obtain ⟨mi, me, le, ex, rck⟩ := p
+  cases rck
+  · simp only [roomCheckOutcome, roomX, checkRoomIDField, checkRoomIDFieldX, checkIDSize, checkIDX, exceeds, decide_eq_true_eq]
+    cases rc <;> cases rs <;> by_cases h1 : rcp > mi <;> by_cases h2 : rb > mi <;> simp [h1, h2]
+  · simp only [roomCheckOutcome, roomX]
 
 theorem verdict_eq_verdictX (p : Params) (s : Sizes) :
     verdict p s = verdictX p.lenient p.senderExempt p.roomCheck s.sender.hasColon s.sender.sigilOk
       s.room.hasColon s.room.sigilOk s.roomValid (exceeds p.maxID p.maxEvent s) := by
-  obtain ⟨jl, tcp, tb, hsk, scp, sb, ⟨sc, ss, secp, seb⟩, ⟨rc, rs, rcp, rb⟩, rv⟩ := s
-  obtain ⟨mi, me, le, ex, rck⟩ := p
-  cases rck <;>
-  simp only [verdict, verdictX, roomCheckOutcome, checkIDSize, checkIDX, checkFields, exceeds, decide_eq_true_eq,
-    Bool.and_eq_true]
+  unfold verdict verdictX
+  rw [room_eq_X, checkFields_eq_X]
+
+theorem verdictUntrusted_eq_X (p : Params) (s : Sizes) (n : Nat) :
+    verdictUntrusted p s n = verdictUntrustedX p.lenient p.senderExempt p.roomCheck s.sender.hasColon s.sender.sigilOk
+      s.room.hasColon s.room.sigilOk s.roomValid (exceeds p.maxID p.maxEvent s) (decide (n > p.maxEvent)) := by
+  unfold verdictUntrusted verdictUntrustedX
+  rw [room_eq_X, checkFields_eq_X]
+  simp only [exceeds, decide_eq_true_eq]
 
 def Exceeds.hard (x : Exceeds) : Bool := x.json || x.typeCP || x.skCP || x.senderCP || x.roomCP
 def Exceeds.softAny (x : Exceeds) : Bool := x.typeB || x.skB || x.senderB || x.roomB
@@ -55,12 +94,9 @@ theorem spec_eq_specX (dl ps : Bool) (s : Sizes) :
     Spec.verdict dl ps s = specX (Spec.wellFormedIDs dl ps s) (exceeds 255 65536 s) := by
   rfl
 
-/-- the inputs on which the order of the checks reports "persistable" although a hard limit is exceeded as well:
-    a room ID over the byte limit only is reported before anything else is looked at; a type / state key over
-    the byte limit only is reported before the sender is looked at -/
-def Exceeds.masked (x : Exceeds) : Bool :=
-  (!x.roomCP && x.roomB && (x.json || x.typeCP || x.skCP || x.senderCP)) ||
-  (!x.roomCP && !x.roomB && !x.json && !x.typeCP && !x.skCP && (x.typeB || x.skB) && x.senderCP)
-
+/-- the one remaining gap (KNOWN FINDING): the room ID is over the byte limit only and no hard limit is
+    exceeded; the property says "too large but persistable", the code refuses (a room ID over 255 bytes is
+    not a valid room ID, and the constructors return no event that could be persisted) -/
+def Exceeds.roomBytesOnly (x : Exceeds) : Bool := !x.roomCP && x.roomB && !x.hard
 
 end V.Limits
